@@ -1314,6 +1314,9 @@ func (st *State) execCall(th *Thread, fr *Frame, x ssa.Value, c *ssa.CallCommon,
 	if f.Fn == nil {
 		return st.runtimePanic(th, "call of nil function")
 	}
+	if st.initMode && strings.HasPrefix(f.Fn.Name(), "init") && f.Fn.Pkg != fr.fn.Pkg {
+		return stNext // package initialisers of other packages are not run
+	}
 	if r, status, handled := st.intrinsic(th, fr, f, args, c); handled {
 		if status == stNext {
 			st.setLocal(fr, x, r)
